@@ -97,27 +97,57 @@ def assert_key_of_items(items):
     return None
 
 
-def parse_mcout(path):
+def illegal_items(plan, items):
+    """results that no execution of the plan can produce whatever the schedule (the checker made the application take a
+    value outside the range of the transition): -> list of descriptions"""
+    ops = {a['id']: a['ops'] for a in plan['actors']}
+    bad = []
+    for aid, idx, kind, kv in items:
+        base = aid.split('#')[0]
+        try:
+            op = ops[base][int(idx)]
+        except (KeyError, IndexError, ValueError):
+            continue
+        if kind == 'mc_random' and 'value' in kv:
+            if not (int(op[1]) <= int(kv['value']) <= int(op[2])):
+                bad.append('%s op %s: MC_random(%s, %s) returned %s' % (aid, idx, op[1], op[2], kv['value']))
+        elif kind in ('wait_any', 'test_any') and 'got' in kv:
+            if kv['got'] != '-' and kv['got'] not in op[1:]:
+                bad.append('%s op %s: %s returned %s' % (aid, idx, kind, kv['got']))
+    return bad
+
+
+def parse_mcout(path, plan=None):
     """-> (set of terminal outcomes, set of assertion keys, number of lines)"""
     terms, asserts, n = set(), set(), 0
+    illegal = []
     try:
         f = open(path, errors='replace')
     except OSError:
-        return terms, asserts, 0
+        return terms, asserts, 0, illegal
     with f:
         for line in f:
             line = line.rstrip('\n')
             n += 1
             if line.startswith('O '):
                 tk = line.split(' ', 3)
+                items = _items_of_text(tk[3] if len(tk) > 3 else '')
+                bad = illegal_items(plan, items) if plan is not None else []
+                if bad:
+                    if len(illegal) < 3 and bad[0] not in illegal:
+                        illegal.append(bad[0])
+                    continue
                 if len(tk) >= 3 and tk[2] == 'alive=0':
-                    terms.add(outcome_of_items(_items_of_text(tk[3] if len(tk) > 3 else '')))
+                    terms.add(outcome_of_items(items))
             elif line.startswith('A '):
                 tk = line.split(' ', 4)
-                k = assert_key_of_items(_items_of_text(tk[4] if len(tk) > 4 else ''))
+                items = _items_of_text(tk[4] if len(tk) > 4 else '')
+                if plan is not None and illegal_items(plan, items):
+                    continue
+                k = assert_key_of_items(items)
                 if k:
                     asserts.add(k)
-    return terms, asserts, n
+    return terms, asserts, n, illegal
 
 
 # ------------------------------------------------------------------------------------------------------- paths
@@ -359,9 +389,9 @@ def run_mc(plan, scratch, red, algo='DFS', strategy='none', randseed=None, max_e
     else:
         raise dst.Infra('simgrid-mc cannot exec %s: %s' % (s4usim(), text[-300:]))
     res = parse_mc_stderr(text)
-    terms, asserts, nlines = parse_mcout(mcout)
+    terms, asserts, nlines, illegal = parse_mcout(mcout, plan)
     _rm(mcout, pf)
-    res.update(rc=rc, timed_out=to, stalled=stalled, looping=looping, outcomes=terms, asserts=asserts, mcout_lines=nlines, red=red, algo=algo,
+    res.update(rc=rc, timed_out=to, stalled=stalled, looping=looping, illegal=illegal, outcomes=terms, asserts=asserts, mcout_lines=nlines, red=red, algo=algo,
                strategy=strategy, config='%s/%s/%s' % (red, algo if red != 'udpor' else '-', strategy),
                stderr_tail=text[-2500:], cmd=' '.join(cmd[3:]), wall=round(time.time() - t0, 2))
     if keep_stderr:
